@@ -157,7 +157,7 @@ func TestVerifC05(t *testing.T) {
 		n := len(ch.hops)
 		urls := make([]string, n)
 		for i := range urls {
-			urls[i] = fmt.Sprintf("https://%s/f%d-%d/%s/hop%d", s.Host(2+i%3), c.R.Shard, serial, ch.name, i)
+			urls[i] = fmt.Sprintf("https://%s/f%02d-%07d/%s/hop%d", s.Host(2+i%3), c.R.Shard, serial, ch.name, i) // fixed width: response lengths do not depend on the serial
 		}
 		for i := n - 1; i >= 0; i-- {
 			next := ""
@@ -250,8 +250,31 @@ func TestVerifC05(t *testing.T) {
 	for ci := 0; ci < nCorpus; ci++ {
 		ch := corpus[ci]
 		for hopIdx := range ch.hops {
-			length := len(ch.hops[hopIdx]("https://127.0.0.2:1/placeholder-of-typical-length/hopN").raw)
-			for k := 0; k <= length+8; k += step {
+			// the bytes this hop will really serve (addresses have a fixed width, so offsets are the same for every case)
+			var sampleHop hop
+			install(ch, hopIdx, func(h hop) sim.Plan { sampleHop = h; return sim.Respond([]byte(h.raw)) })
+			length := len(sampleHop.raw)
+			// cut points that are always included, whatever the step: around every line end, around the point
+			// where the client has all it needs, around the first and the last brace
+			interesting := map[int]bool{}
+			mark := func(at int) {
+				for d := -3; d <= 2; d++ {
+					if at+d >= 0 {
+						interesting[at+d] = true
+					}
+				}
+			}
+			for i := 0; i < length; i++ {
+				if sampleHop.raw[i] == '\n' || sampleHop.raw[i] == '{' {
+					mark(i)
+				}
+			}
+			mark(sampleHop.needEnd)
+			mark(strings.LastIndex(sampleHop.raw, "}"))
+			for k := 0; k <= length+8; k++ {
+				if k%step != 0 && !interesting[k] {
+					continue
+				}
 				for _, style := range []string{"notify", "fin", "rst"} {
 					n := caseNo
 					caseNo++
